@@ -16,7 +16,49 @@ def local(uri):
     return shorten(uri)
 
 
+def name_clash_cases(ctx):
+    """URIs identify types (and operators) uniquely: `Language` strips trailing underscores from the names it is given (`in_` -> `in`), so two
+    symbols whose names differ only by trailing underscores, or a symbol that becomes a reserved word, must be refused; if such a language
+    is accepted its symbols must at least keep distinct URIs and round-trip through them"""
+    from transforge.type import TypeOperator, TypeAlias
+    from transforge.expr import Operator
+    from transforge.lang import Language
+    cases = []
+    A, A_ = TypeOperator(), TypeOperator()
+    cases.append(("types A / A_", dict(A=A, A_=A_), [A, A_]))
+    B, B__ = TypeOperator(), TypeOperator()
+    cases.append(("types B / B__", dict(B=B, B__=B__), [B, B__]))
+    C = TypeOperator(); f, f_ = Operator(type=C ** C), Operator(type=C ** C ** C)
+    cases.append(("operators f / f_", dict(C=C, f=f, f_=f_), [f, f_]))
+    Top_ = TypeOperator()
+    cases.append(("type Top_ (reserved word after stripping)", dict(Top_=Top_), [Top_]))
+    D = TypeOperator(); F = TypeOperator(params=1); D_ = TypeAlias(F(D))
+    cases.append(("type D / alias D_", dict(D=D, F=F, D_=D_), [D]))
+    for what, scope, items in cases:
+        ctx.evaluations += 1
+        ctx.count("name_clash_cases")
+        try:
+            lang = Language(scope=scope, namespace="https://example.com/#")
+        except (ValueError, RuntimeError):
+            ctx.count("name_clash_refused")
+            continue
+        except Exception as ex:  # noqa
+            ctx.fail(f"language with {what} raised {type(ex).__name__}", {"check": "name-clash-error"}, {"what": "name-clash", "case": what})
+            continue
+        uris = []
+        for it in items:
+            try:
+                uris.append(str(lang.uri(it() if isinstance(it, TypeOperator) else it)))
+            except Exception as ex:  # noqa
+                uris.append("X:" + type(ex).__name__)
+        bad = len(set(uris)) < len(uris) or any(u.endswith("#Top") for u in uris)
+        if bad:
+            ctx.fail(f"a language with {what} is accepted and gives the URIs {uris}: two symbols share a URI (or take a built-in's)",
+                {"check": "name-clash-accepted"}, {"what": "name-clash", "case": what})
+
+
 def run(ctx):
+    name_clash_cases(ctx)
     from rdflib import URIRef
     from transforge import type as T
     from transforge.type import TypeAlias
@@ -214,6 +256,13 @@ def uritoks(t, spec):
 def replay(ctx, payload):
     from rdflib import URIRef
     inp = payload["input"]
+    if inp.get("what") == "name-clash":
+        c = type("C", (), {"failures": [], "evaluations": 0, "count": lambda self, n, k=1: None,
+            "fail": lambda self, d, f, r: self.failures.append(d)})()
+        name_clash_cases(c)
+        for d in c.failures:
+            print(d)
+        return not c.failures
     spec = G.LangSpec([(n, v, p) for n, v, p in inp["lang"]])
     ops = spec.build()
     tt = lambda x: (x[0], tuple(tt(a) for a in x[1]))  # noqa
